@@ -157,7 +157,7 @@ func (m *MirrorMon) wit(s *Sim, step int) map[string]any {
 	return map[string]any{"history": m.Hist, "seed": s.Seed, "profile": s.prof.Name, "step": step, "log_tail": s.LogTail(40)}
 }
 
-var shareRemoving = map[string]bool{"st_undelegate": true, "st_redelegate": true, "ds_unbond": true, "stake": true, "unstake": true, "slash": true, "st_cancel": true, "ds_delegate": true, "st_delegate": true}
+var shareRemoving = map[string]bool{"st_undelegate": true, "st_redelegate": true, "ds_unbond": true, "stake": true, "unstake": true, "slash": true, "st_cancel": true, "ds_delegate": true, "st_delegate": true, "st_batch": true}
 
 // txs after which the signer was fully rebalanced by the code (BalanceDelegator through the
 // AfterDelegationModified hook). Undelegations are not in this set: removing a whole delegation goes
